@@ -237,6 +237,34 @@ def check(run):
         probes.append((sk, a, b, mp))
         j.case('pa' + sk, fork=True).model('xml', a).dump('errors').dump('supported').dump('doc').end()
         j.case('pb' + sk, fork=True).model('xml', b).dump('errors').dump('supported').dump('doc').end()
+    # renaming ONE declared entity and the uses bound to it (which removes or creates no shadowing when the new name is fresh): scope-generator models, bindings by the extracted scope model
+    import scopegen
+    ones = []
+    drv_scope, err = vlib.build_extract('scope', 'Extract_Scope.v', 'drv_scope') if os.path.exists(os.path.join(vlib.COQ, 'theories', 'ScopeProofs.vo')) else (None, 'ScopeProofs.vo missing')
+    if drv_scope is None:
+        run.tie_broken('extraction of the scope model (rename-one family)', err)
+    else:
+        gens = []
+        for k in range(1200 if thorough else 160):
+            g = scopegen.Gen(rng, mark=True)
+            tree, xml, obs = g.model()
+            gens.append((tree, xml))
+        sout = subprocess.run([drv_scope], input='\n'.join(t for t, _ in gens) + '\n', stdout=subprocess.PIPE, universal_newlines=True).stdout.split('\n')
+        for k, (tree, xml) in enumerate(gens):
+            S = sout[2 * k][2:].split()
+            local = scopegen.scope_local_names(tree)
+            # a declaration whose name is declared once in its own scope (renaming one of two declarations of a scope removes a duplicate: not meaning preserving)
+            cands = [d for d, (n, dup) in local.items() if not dup]
+            if not cands:
+                continue
+            shadowing = [d for d in cands if sum(1 for d2, (n2, _) in local.items() if n2 == local[d][0]) > 1]
+            d = rng.choice(shadowing or cands)
+            fresh = 'zq%d%s' % (d, scopegen.NAMES[local[d][0]])
+            uses = {i for i, b in enumerate(S) if b == str(d)}
+            a, b = scopegen.instantiate(xml), scopegen.instantiate(xml, decl=d, uses=uses, fresh=fresh)
+            ones.append((k, a, b, {scopegen.NAMES[local[d][0]]: fresh}))
+            j.case('oa%d' % k, fork=True).model('xml', a).dump('errors').dump('supported').dump('doc').end()
+            j.case('ob%d' % k, fork=True).model('xml', b).dump('errors').dump('supported').dump('doc').end()
     rr = vlib.run_jobs(j)
     stats = collections.Counter()
 
@@ -260,7 +288,10 @@ def check(run):
                 for v, k in back:
                     t = t.replace(v, k)
                 return t
-            eb, db = sorted(sub(x) for x in eb), [sub(x) for x in db]
+            # name sets are printed sorted by name: sort them again after mapping the names back
+            canon = lambda t: re.sub(r'\b(changes|depends|restricted)=\{([^}]*)\}', lambda m: '%s={%s}' % (m.group(1), ','.join(sorted(m.group(2).split(',')))), t)
+            eb, db = sorted(sub(x) for x in eb), [canon(sub(x)) for x in db]
+            da = [canon(x) for x in da]
         stats['accepted' if not ea else 'rejected'] += 1
         if ea != eb:
             only_a, only_b = [x for x in ea if x not in eb], [x for x in eb if x not in ea]
@@ -278,13 +309,16 @@ def check(run):
     for k, kind, a, b, mp in plan:
         stats[kind] += 1
         compare(rr['a%d' % k], rr['b%d' % k], kind, a, b, mp, '')
+    for k, a, b, mp in ones:
+        stats['rename-one'] += 1
+        compare(rr['oa%d' % k], rr['ob%d' % k], 'rename-one', a, b, mp, '')
     for sk, a, b, mp in probes:
         stats['soft-keyword-probes'] += 1
         compare(rr['pa' + sk], rr['pb' + sk], 'rename type to %s' % sk, a, b, mp, 'soft-keyword-type:%s:' % sk)
     run.cov.update(evaluations=2 * len(plan) + 2 * len(probes) + cstats['comment_texts'], distinct_nontrivial=len(set(p[3] for p in plan)), traces_validated_against_impl=len(plan) + cstats['comment_texts'], **stats, **cstats,
                    rule='generated models (C04 generator, a third with a semantic fault in a label; declaration seeds with functions, structs, typedefs, quantifiers, channel priorities) rewritten by one family: '
                         '(space) the same tokens separated by blanks / tabs / line breaks / block and line comments instead of single blanks; (parens) redundant parentheses around literals and whole guard / invariant / update expressions; '
-                        '(alias) and / or / not for && / || / !; (rename) every user identifier consistently replaced by a fresh one. Compared: the multiset of diagnostic messages (renamed, positions dropped), the supported-analysis verdict, '
+                        '(alias) and / or / not for && / || / !; (rename) every user identifier consistently replaced by a fresh one; (rename-one) in models of the scope generator (names declared at many levels, shadowing each other, type names included) one declaration and exactly the uses the extracted scope model binds to it renamed to a fresh name. Compared: the multiset of diagnostic messages (renamed, positions dropped), the supported-analysis verdict, '
                         'and the document dump line by line (renamed). Plus one probe per soft keyword of the query language used as a type name.')
     run.cov['trusted_base'] += ['the rewriters of tools/props/C09.py (token-level; the reference spelling is re-joined from the same token list)', 'tools/docgen.py, tools/crashgen.py', 'SR.v / ExprSyntax.v / Scope.v models (see C02, C07)']
     return run.finish('proof', assumptions=['block comments are modelled at character level (CommentLex.v: the five <comment> rules, regenerated from lexer.l and compared with the modelled ones); blanks, line comments, continuations and the token rules of the INITIAL condition are not: their invariance is decided by the relational oracle only',
